@@ -1115,6 +1115,32 @@ theorem inv_runFrom {s : State} {tr : List Event} (h : Inv s tr) (ops : List Op)
   | nil => exact h
   | cons op ops ih => exact ih (inv_step h op)
 
+theorem runFrom_append (s : State) (tr : List Event) (a b : List Op) :
+    runFrom s tr (a ++ b) = runFrom (runFrom s tr a).1 (runFrom s tr a).2 b := by
+  induction a generalizing s tr with
+  | nil => rfl
+  | cons op a ih => simp [runFrom, ih]
+
+/-- from a state where `id` is armed (hence not cancelled), the manager running and no callback
+in progress: let the duration elapse, let the expiry goroutine run, let the owner take the
+last queue element — the callback is entered. -/
+theorem can_fire_armed {s : State} {tr : List Event} (hw : WF s) (id : Nat)
+    (ha : (s.tm id).armed = true) (hr : s.running = true) (hc : s.cur = none) :
+    cbCount (runFrom s tr [.advance ((s.tm id).exp - s.now), .expire id, .doNext s.queue.length]).2 id
+      = cbCount tr id + 1 := by
+  obtain ⟨hcc, _, hnq, _⟩ := hw.armedOk id ha
+  have hexp : (s.tm id).exp ≤ s.now + ((s.tm id).exp - s.now) := by omega
+  simp [runFrom, step, expire, ha, hexp, hcc, hr, doNext, hc, State.tick, State.setTm, State.push, State.pop,
+    State.setCur, upd, cbCount, Event.isCbOf]
+
+/-- a queued, not cancelled object: the owner takes it — the callback is entered -/
+theorem can_fire_queued {s : State} {tr : List Event} (id : Nat)
+    (hq : id ∈ s.queue) (hcc : (s.tm id).cancelled = false) (hc : s.cur = none) :
+    cbCount (runFrom s tr [.doNext (s.queue.idxOf id)]).2 id = cbCount tr id + 1 := by
+  have hget : s.queue[s.queue.idxOf id]? = some id := by
+    rw [List.getElem?_eq_getElem (List.idxOf_lt_length_iff.2 hq)]; simp
+  simp [runFrom, step, doNext, hc, hget, hcc, cbCount, Event.isCbOf]
+
 theorem inv_run (ops : List Op) : Inv (run ops).1 (run ops).2 := inv_runFrom inv_init ops
 
 end Cell2v.Timer
